@@ -100,6 +100,8 @@ UClasses ==
                EXCEPT !.postinc = "a", !.bases = <<"PIB">>],
    \* TypedDict with an explicitly aliased key
    TDA  |-> Cls("typeddict", << [F("foo", TInt) EXCEPT !.alias = "Foo"], FD("bar", TEnum("ES"), VUndef) >>),
+   CZ   |-> Cls("dataclass", << [F("a", TAnnot(TInt, << <<"min", 0>> >>)) EXCEPT !.cons = << <<"max", 10>> >>],
+                                [FD("l", TAnnot(TColl("list", TInt), << <<"max_items", 0>> >>), VList(<<>>)) EXCEPT !.cons = << <<"unique", TRUE>> >>, !.dk = "fac"] >>),
    UF   |-> Cls("dataclass", << F("u", TUnion(<<TInt, TEnum("ES")>>)), FD("l", TUnion(<<TEnum("EI"), TStr>>), DStr("s")) >>),
    EF   |-> Cls("dataclass", << F("e", TEnum("EI")), FD("l", TLit(<<DStr("a"), DInt(2)>>), DStr("a")) >>)]
 
@@ -110,10 +112,12 @@ UAliasers ==
   [id    |-> <<>>,
    upper |-> << <<"a", "A">>, <<"b", "B">>, <<"bb", "BB">>, <<"c", "C">>, <<"d", "D">>, <<"e", "E">>,
                 <<"l", "L">>, <<"s", "S">>, <<"x", "X">>, <<"z", "Z">>, <<"o", "O">>, <<"p", "P">>,
-                <<"f", "F">>, <<"w", "W">>, <<"t", "T">>, <<"u", "U">>, <<"type", "TYPE">>, <<"kind", "KIND">> >>]
+                <<"f", "F">>, <<"w", "W">>, <<"t", "T">>, <<"u", "U">>, <<"type", "TYPE">>, <<"kind", "KIND">>,
+                <<"m1", "M1">>, <<"mm", "MM">>, <<"m3", "M3">>, <<"m4", "M4">>, <<"n", "N">>, <<"knd", "KND">>,
+                <<"Foo", "FOO">>, <<"bar", "BAR">>, <<"foo", "FOO2">> >>]
 
 Opt(addl, fbd, coerce, ali) == [addl |-> addl, fbd |-> fbd, coerce |-> coerce, ali |-> UAliasers[ali], aliname |-> ali,
-                                impl |-> FALSE, dev |-> {}]
+                                impl |-> FALSE, dev |-> {}, setuniq |-> FALSE]
 Ctx(O) == [C |-> UClasses, En |-> UEnums, O |-> O, S |-> UStrAttr]
 
 \* ---- types
@@ -126,7 +130,11 @@ Leaves ==
     TAnnot(TInt,   << <<"exc_min", 0>>, <<"mult_of", 4>> >>),
     TAnnot(TFloat, << <<"exc_max", 5>>, <<"min", -2>> >>),
     TAnnot(TStr,   << <<"min_len", 1>>, <<"max_len", 2>> >>),
-    TAnnot(TStr,   << <<"pattern", "pa">> >>) }
+    TAnnot(TStr,   << <<"pattern", "pa">> >>),
+    \* constraints on several levels, a zero-valued one innermost
+    TAnnot(TAnnot(TInt, << <<"min", 0>> >>), << <<"max", 6>> >>),
+    TAnnot(TNew("NZ", TAnnot(TFloat, << <<"exc_min", 0>> >>)), << <<"mult_of", 3>> >>),
+    TAnnot(TAnnot(TStr, << <<"min_len", 0>>, <<"max_len", 2>> >>), << <<"pattern", "pa">> >>) }
 
 Ctor1(t) ==
   { TColl("list", t), TColl("vtuple", t), TMap(TStr, t), TOpt(t),
@@ -250,8 +258,8 @@ Cand(ctx, T, n) ==
              tags == UNION {{DStr(T.keys[i][j]) : j \in DOMAIN T.keys[i]} : i \in DOMAIN T.keys} \cup {DStr("zz"), DInt(1)}
              base == UNION {PickSome(Cand(ctx, T.alts[i], IF n > 0 THEN n - 1 ELSE 0), 12) : i \in DOMAIN T.alts}
          IN SmallAtoms \cup {x \in base : x.k = "obj"}
-              \cup {DObj(x.o \o << <<al, tag>> >>) : x \in {y \in base : y.k = "obj"}, tag \in tags}
-              \cup {DObj(<< <<al, tag>> >> \o x.o) : x \in {y \in base : y.k = "obj"}, tag \in tags}
+              \cup {DObj(SelectSeq(x.o, LAMBDA p : p[1] # al) \o << <<al, tag>> >>) : x \in {y \in base : y.k = "obj"}, tag \in tags}
+              \cup {DObj(<< <<al, tag>> >> \o SelectSeq(x.o, LAMBDA p : p[1] # al)) : x \in {y \in base : y.k = "obj"}, tag \in tags}
     [] T.k = "obj"     ->
          LET K  == ctx.C[T.cls]
              fs == K.fields
